@@ -17,7 +17,7 @@ package client
 // qsWF: the queues exist and every pending entry is a non-nil operation whose oneof wrapper is non-nil.
 //@ pred oneofOK(x Iface) = tagof(x) != 0 ==> payload(x) != 0
 //@ pred qsWF(c *Client) = c != nil && c.qs != nil && c.qs.pendq != nil && c.qs.pendq.Ops != nil && c.state != nil && unixTS != nil
-//@   && (forall k in dom(c.qs.pendq.Ops) :: c.qs.pendq.Ops[k] != nil ==> c.qs.pendq.Ops[k].Op != nil && oneofOK(c.qs.pendq.Ops[k].Op.Entry)
+//@   && (forall k in dom(c.qs.pendq.Ops) :: c.qs.pendq.Ops[k] != nil && c.qs.pendq.Ops[k].Op != nil && oneofOK(c.qs.pendq.Ops[k].Op.Entry)
 //@       && (c.qs.pendq.Ops[k].Op.GetMpls() != nil ==> oneofOK(c.qs.pendq.Ops[k].Op.GetMpls().Label)))
 //@ pred resultqWF(c *Client) = forall i in 0..len(c.qs.resultq) :: c.qs.resultq[i] != nil
 // pendLen: the number of requests still awaiting an answer (operations, election update, session parameters).
@@ -131,6 +131,7 @@ package client
 //@ ensures[exclusive] m != nil && ((len(m.Result) != 0 && m.ElectionId != nil) || (len(m.Result) != 0 && m.SessionParamsResult != nil) || (m.ElectionId != nil && m.SessionParamsResult != nil))
 //@   ==> result0 != nil && len(c.qs.resultq) == old(len(c.qs.resultq)) && dom(c.qs.pendq.Ops) == old(dom(c.qs.pendq.Ops))
 //@ ensures[wf] qsWF(c)
+//@ loop 1 invariant loopi <= 3 && pop == ite(loopi >= 1 && resPop, 1, 0) + ite(loopi >= 2 && elecPop, 1, 0) + ite(loopi >= 3 && sessPop, 1, 0)
 //@ loop 2 at "range m.Result" invariant qsWF(c) && resultqWF(c) && held(c.qs.resultMu) == 2 && held(c.qs.pendMu) == 0
 //@ loop 2 invariant len(c.qs.resultq) >= old(len(c.qs.resultq)) && (forall i in 0..old(len(c.qs.resultq)) :: c.qs.resultq[i] == old(c.qs.resultq[i]))
 //@ assigns c.qs.resultq, contents(c.qs.pendq.Ops), c.qs.pendq.Election, c.qs.pendq.SessionParams
@@ -140,5 +141,38 @@ package client
 //@ requires c != nil
 //@ ensures[nil-queues] c.qs == nil ==> result1 != nil
 //@ ensures[copy] c.qs != nil ==> result1 == nil && len(result0) == len(c.qs.resultq) && (forall i in 0..len(result0) :: result0[i] == c.qs.resultq[i])
+//@ assigns nothing
+//@ props C13 C11:lock
+
+//@ unit Client.AckResult
+//@ requires c != nil && (c.qs != nil ==> resultqWF(c)) && (forall i in 0..len(res) :: res[i] != nil) && held(c.qs.resultMu) == 0
+//@ ensures[nil-queues] c.qs == nil ==> result0 != nil
+//@ ensures[only-acked-removed] c.qs != nil ==> (forall i in 0..len(c.qs.resultq) :: c.qs.resultq[i] != nil && !(exists j in 0..len(res) :: res[j].OperationID == c.qs.resultq[i].OperationID))
+//@ ensures[others-kept] c.qs != nil ==> forall i in 0..old(len(c.qs.resultq)) :: !(exists j in 0..len(res) :: res[j].OperationID == old(c.qs.resultq[i]).OperationID)
+//@    ==> (exists k in 0..len(c.qs.resultq) :: c.qs.resultq[k] == old(c.qs.resultq[i]))
+//@ loop 1 at "range res" invariant toACK != nil && (forall k: uint64 :: k in dom(toACK) <==> (exists j in 0..loopi :: res[j].OperationID == k))
+//@ loop 2 at "range c.qs.resultq" invariant held(c.qs.resultMu) == 2 && toACK != nil && (forall k: uint64 :: k in dom(toACK) <==> (exists j in 0..len(res) :: res[j].OperationID == k))
+//@ loop 2 invariant (forall i in 0..len(nrq) :: nrq[i] != nil && !(nrq[i].OperationID in dom(toACK)))
+//@ loop 2 invariant forall i in 0..loopi :: !(ranged[i].OperationID in dom(toACK)) ==> (exists k in 0..len(nrq) :: nrq[k] == ranged[i])
+//@ loop 2 invariant ranged == old(c.qs.resultq) && c.qs != nil
+//@ assigns c.qs.resultq
+//@ props C13 C11:lock
+
+// quiescent: nothing queued to send, nothing awaiting an answer, no error recorded.
+//@ pred quiescent(c *Client) = len(c.qs.sendq) == 0 && pendLen(c.qs.pendq) == 0 && len(c.readErr) == 0 && len(c.sendErr) == 0
+//@ pred clientQuiet(c *Client) = held(c.awaiting) == 0 && held(c.readErrMu) == 0 && held(c.sendErrMu) == 0 && held(c.qs.sendMu) == 0 && held(c.qs.pendMu) == 0
+
+//@ unit Client.AwaitConverged$1
+//@ requires c != nil && c.qs != nil && clientQuiet(c)
+//@ ensures[error-iff-recorded] result1 != nil <==> (len(c.readErr) != 0 || len(c.sendErr) != 0)
+//@ ensures[done-means-quiescent] result0 && result1 == nil ==> quiescent(c)
+//@ ensures[not-done-no-error] !result0 ==> result1 == nil
+//@ assigns nothing
+//@ props C13 C11:lock
+
+//@ unit Client.AwaitConverged
+//@ requires c != nil && c.qs != nil && clientQuiet(c) && tagof(ctx) != 0
+//@ ensures[nil-means-converged-and-error-free] result0 == nil ==> quiescent(c)
+//@ loop 1 invariant clientQuiet(c)
 //@ assigns nothing
 //@ props C13 C11:lock
